@@ -1,7 +1,7 @@
 (** C05 — JWT authentication accepts exactly the correctly signed, asserted tokens.
     Property theorems only; proofs are in C05/Proofs.v, the specification
     vocabulary ([spec_accepts], [trusted_issuers], [allowed_algs], [expected_audiences],
-    [required_scopes], [leeway], [guard_F1], [guard_F2], [guard_F3], [sane_clock]) in C05/Spec.v, [demands]
+    [required_scopes], [leeway], [guard_F1] ... [guard_F5], [open_guards] (= F3 or F5), [scopes_satisfied], [sane_clock]) in C05/Spec.v, [demands]
     and [window_ok] in C05/Proofs.v.
 
     [authenticate cf ks now cred] is jwtAuthenticator.Execute on a request whose
@@ -11,7 +11,7 @@
     certificate validity are oracles: cryptography is not modelled.
     [authenticate] is the code as it is now, i.e. with the fix: commits a3a89b7
     (C05-F1) and f16c3cc (C05-F2); [authenticate_pinned] is the code before them. *)
-From HV Require Import Base.Prelude Base.Time C05.Model C05.Spec C05.Proofs C05.Cache C05.CacheProofs.
+From HV Require Import Base.Prelude Base.Time C05.Model C05.Spec C05.Proofs C05.ScopeProofs C05.Cache C05.CacheProofs.
 
 (** A subject is created only if: a key [k] published by the key-set endpoint
     (the unique one with the token's kid, any one if the token has none; with a
@@ -22,7 +22,7 @@ From HV Require Import Base.Prelude Base.Time C05.Model C05.Spec C05.Proofs C05.
     and `iat` is not in the future; the subject id is the configured member of
     these claims.  ([demands], unfolded in C05_demands_unfold below.) *)
 Theorem C05_accept_sound : forall cf ks now t sub,
-  sane_clock cf now -> guard_F3 (CToken t) = false ->
+  sane_clock cf now -> open_guards cf (CToken t) = false ->
   authenticate cf ks now (CToken t) = Accepted sub ->
   demands cf ks now t sub.
 Proof. exact accept_sound. Qed.
@@ -37,7 +37,7 @@ Theorem C05_demands_unfold : forall cf ks now t sub,
     sig_ok t k = true /\
     k_alg k = t_alg t /\ In (k_alg k) (allowed_algs cf) /\ In (t_alg t) supported_algs /\
     c_malformed (t_claims t) = false /\
-    In (c_iss (t_claims t)) (trusted_issuers cf) /\
+    c_iss (t_claims t) <> ""%string /\ In (c_iss (t_claims t)) (trusted_issuers cf) /\
     (expected_audiences cf <> [] ->
        exists a, In a (expected_audiences cf) /\ In a (strs_of (c_aud (t_claims t)))) /\
     match_scopes (required_scopes cf) (eff_scopes (t_claims t)) = true /\
@@ -50,7 +50,7 @@ Print Assumptions C05_demands_unfold.
 
 (** "accepts exactly": conversely, a token meeting the demands is accepted *)
 Theorem C05_accept_complete : forall cf ks now t sub,
-  sane_clock cf now -> guard_F3 (CToken t) = false ->
+  sane_clock cf now -> open_guards cf (CToken t) = false ->
   t_payload_obj t = true -> cf_remote cf = RUp ->
   demands cf ks now t sub ->
   authenticate cf ks now (CToken t) = Accepted sub.
@@ -58,9 +58,10 @@ Proof. exact accept_complete. Qed.
 Print Assumptions C05_accept_complete.
 
 (** both directions at once, for every kind of credential, against the executable specification;
-    the only guard left is the exotic C05-F3 (`exp` = -62135596800, the Unix time of Go's zero time.Time) *)
+    the guards left are the open findings C05-F3 (`exp` = -62135596800, the Unix time of Go's zero
+    time.Time, counts as absent) and C05-F5 (no `iss` while the empty string is a trusted issuer) *)
 Theorem C05_authenticate_iff_spec : forall cf ks now cr,
-  sane_clock cf now -> guard_F3 cr = false ->
+  sane_clock cf now -> open_guards cf cr = false ->
   accepted_sub (authenticate cf ks now cr) = spec_accepts cf ks now cr.
 Proof. exact authenticate_spec. Qed.
 Print Assumptions C05_authenticate_iff_spec.
@@ -72,10 +73,18 @@ Theorem C05_F3_refuted :
 Proof. exact F3_refuted. Qed.
 Print Assumptions C05_F3_refuted.
 
+(** C05-F5 (open): no issuers configured and an (unverified) metadata document without issuer: a correctly
+    signed token WITHOUT `iss` is accepted *)
+Theorem C05_F5_refuted :
+  exists cf ks now cr, sane_clock cf now /\ guard_F3 cr = false /\ guard_F5 cf cr = true /\
+    accepted_sub (authenticate cf ks now cr) = Some "alice"%string /\ spec_accepts cf ks now cr = None.
+Proof. exact F5_refuted. Qed.
+Print Assumptions C05_F5_refuted.
+
 (** the code before a3a89b7 / f16c3cc met the specification outside C05-F1 (`exp <= 0` never expires)
     and C05-F2 (`nbf`/`iat` beyond int64 count as not set) ... *)
 Theorem C05_pinned_iff_spec : forall cf ks now cr,
-  sane_clock cf now -> guard_F1 cr = false -> guard_F2 cr = false ->
+  sane_clock cf now -> guard_F1 cr = false -> guard_F2 cr = false -> guard_F5 cf cr = false ->
   accepted_sub (authenticate_pinned cf ks now cr) = spec_accepts cf ks now cr.
 Proof. exact pinned_spec. Qed.
 Print Assumptions C05_pinned_iff_spec.
@@ -136,20 +145,9 @@ Theorem C05_alg_confusion_rejected : forall f1 f2 cf ks now t,
 Proof. exact alg_confusion_rejected. Qed.
 Print Assumptions C05_alg_confusion_rejected.
 
-(** by default neither HS*, RS* nor EdDSA is allowed *)
-Theorem C05_default_algorithms : forall cf a,
-  e_algs (rule_level cf) = [] -> e_algs (cf_proto cf) = [] ->
-  In a ["HS256"; "HS384"; "HS512"; "RS256"; "RS384"; "RS512"; "EdDSA"; "none"]%string ->
-  ~ In a (allowed_algs cf).
-Proof. exact default_algorithms. Qed.
-Print Assumptions C05_default_algorithms.
-
 (** Merge precedence: the assertions in force are the rule level's where set, else
     the mechanism's (with its defaults), else the metadata's issuer; Merge is associative *)
 Theorem C05_merge_precedence : forall cf,
-  effective cf = merge (rule_level cf)
-                   (merge (proto_defaults (cf_proto cf))
-                      {| e_issuers := [cf_md_issuer cf]; e_scopes := None; e_aud := []; e_algs := []; e_leeway := 0 |}) /\
   e_issuers (effective cf) = trusted_issuers cf /\
   e_algs (effective cf) = allowed_algs cf /\
   e_aud (effective cf) = expected_audiences cf /\
@@ -159,38 +157,42 @@ Theorem C05_merge_precedence : forall cf,
 Proof. exact merge_precedence. Qed.
 Print Assumptions C05_merge_precedence.
 
-(** the nil ScopesMatcher of an unconfigured `scopes` is never dereferenced *)
-Theorem C05_no_nil_matcher : forall cf, e_scopes (effective cf) <> None.
-Proof. exact effective_scopes_some. Qed.
-Print Assumptions C05_no_nil_matcher.
+(** the algorithm tables of the code are the ones the specification states ([parsable_algs], [allowed_by_default]
+    in C05/Spec.v): no "none", and by default neither RSA PKCS#1 v1.5, HMAC nor EdDSA *)
+Theorem C05_algorithm_tables :
+  supported_algs = parsable_algs /\ default_allowed_algs = allowed_by_default /\
+  (forall a, In a ["none"; "None"; "NONE"; "nOnE"; ""]%string -> ~ In a parsable_algs) /\
+  (forall a, In a ["HS256"; "HS384"; "HS512"; "RS256"; "RS384"; "RS512"; "EdDSA"; "none"]%string -> ~ In a allowed_by_default).
+Proof. exact algorithm_tables. Qed.
+Print Assumptions C05_algorithm_tables.
 
-(** what the three matching strategies decide *)
-Theorem C05_exact_scopes : forall req scopes,
-  match_scopes (MExact req) scopes = true <-> forall r, In r req -> In r scopes.
-Proof. exact exact_match_iff. Qed.
-Print Assumptions C05_exact_scopes.
+(** claim decoding, declaratively: a string-valued `aud`/`scp`/`scope` carries THE blank-separated pieces
+    ([is_split]), an array its elements; the granted scopes are `scp` if it has any value, else `scope` *)
+Theorem C05_claim_decoding :
+  (forall s l, strs_of (SStr s) = l <-> is_split " " s l) /\
+  (forall l, strs_of (SArr l) = l) /\ strs_of SAbsent = [] /\
+  (forall c, eff_scopes c = granted_scopes c).
+Proof. exact claim_decoding. Qed.
+Print Assumptions C05_claim_decoding.
 
-Theorem C05_hierarchic_scopes : forall req scopes,
-  match_scopes (MHier req) scopes = true <->
-  forall r, In r req -> exists s, In s scopes /\
-    (s = r \/ ((String.length s <= String.length r)%nat /\
-               exists rest, rest <> [] /\ split_dot r = split_dot s ++ rest)).
-Proof. exact hier_match_iff. Qed.
-Print Assumptions C05_hierarchic_scopes.
+(** the three matching strategies decide the declarative relations of C05/Spec.v: exact = membership,
+    hierarchic = [hier_covers] (a granted scope covers itself and everything below), wildcard = [wild_covers] *)
+Theorem C05_scope_matching : forall m granted,
+  match_scopes m granted = true <-> scopes_satisfied m granted.
+Proof. exact match_scopes_iff. Qed.
+Print Assumptions C05_scope_matching.
 
-Theorem C05_wildcard_scopes : forall needle pattern,
-  wild_one needle pattern = true <->
-  let mp := split_dot pattern in
-  let np := split_dot needle in
-  (length mp <= length np)%nat /\ parts_ok mp np = true /\
-  (length mp <> length np -> last mp EmptyString = "*"%string).
-Proof. exact wild_one_iff. Qed.
-Print Assumptions C05_wildcard_scopes.
+(** the scope clause, unguarded: whenever a subject is created the granted scopes satisfy the matcher in force *)
+Theorem C05_accepted_scopes_satisfied : forall f1 f2 cf ks now t sub,
+  authenticate_gen f1 f2 cf ks now (CToken t) = Accepted sub ->
+  scopes_satisfied (required_scopes cf) (granted_scopes (t_claims t)).
+Proof. exact accepted_scopes_satisfied. Qed.
+Print Assumptions C05_accepted_scopes_satisfied.
 
 (** non-vacuity: a token at the edge of its validity window is accepted, one second further it is not *)
 Example C05_nonvacuous :
   let t := ex_token (Some 1789999991%Z) (Some 1790000010%Z) (Some 1790000010%Z) in
-  sane_clock ex_cf ex_now /\ guard_F3 (CToken t) = false /\
+  sane_clock ex_cf ex_now /\ open_guards ex_cf (CToken t) = false /\
   authenticate ex_cf ex_keys ex_now (CToken t) = Accepted "alice" /\
   authenticate ex_cf ex_keys ex_now (CToken (ex_token (Some 1789999990%Z) None None)) = Failed EAssertion /\
   authenticate ex_cf ex_keys ex_now (CToken (ex_token None (Some 1790000011%Z) None)) = Failed EAssertion /\
@@ -229,7 +231,7 @@ Theorem C05_cache_history_spec : forall h pre s post r,
   (exists v, uniform_validation v h) \/ guard_F4 true true h = false ->
   h = pre ++ s :: post ->
   nth_error (run_history true true false h) (length pre) = Some r ->
-  sane_clock (s_cf s) (s_now s) -> guard_F3 (s_cred s) = false ->
+  sane_clock (s_cf s) (s_now s) -> open_guards (s_cf s) (s_cred s) = false ->
   meets_spec pre s r.
 Proof. exact history_spec. Qed.
 Print Assumptions C05_cache_history_spec.
@@ -251,7 +253,7 @@ Theorem C05_cache_fixed_history_spec : forall h pre s post r,
   h = pre ++ s :: post ->
   nth_error (run_history true true true h) (length pre) = Some r ->
   (judged_statelessly true true pre s r) /\
-  (sane_clock (s_cf s) (s_now s) -> guard_F3 (s_cred s) = false -> meets_spec pre s r).
+  (sane_clock (s_cf s) (s_now s) -> open_guards (s_cf s) (s_cred s) = false -> meets_spec pre s r).
 Proof. exact history_fixed_both. Qed.
 Print Assumptions C05_cache_fixed_history_spec.
 
